@@ -3,6 +3,7 @@
 package main
 
 import (
+	"net"
 	"encoding/json"
 	"fmt"
 	"sort"
@@ -137,6 +138,10 @@ func genLifetimePlan(seed uint64, tier string) *Plan {
 			if g.chance(30) {
 				// the backend is slow to answer the BYE: the caller retransmits it before any answer was seen
 				top.I["retransmitBeforeAnswer"] = 1 + g.intn(2)
+			} else if g.chance(25) {
+				// the backend answers the BYE from another source port than the one it is configured with (the answer is
+				// attributed through the transaction all the same)
+				top.I["answerFromOtherPort"] = 1
 			}
 			p.Ops = append(p.Ops, top)
 			p.Ops = append(p.Ops, Op{Kind: "probe-now", ID: id + ".pt", S: map[string]string{"dialog": id}})
@@ -248,7 +253,11 @@ func execLifetime(t *testing.T, p *Plan) *Result {
 		respStatus := map[string]int{}
 		respDelayUs := map[string]int{}
 		ringing := map[string]int{}
+		noAnswer := map[string]bool{}
 		d.respScript = func(party string, m *sipwire.Msg, id string) []respPlan {
+			if noAnswer[id] {
+				return nil
+			}
 			rp := respPlan{delay: 300 * time.Microsecond, status: 200, expires: -1}
 			if us, ok := respDelayUs[id]; ok {
 				rp.delay = time.Duration(us) * time.Microsecond
@@ -484,9 +493,29 @@ func execLifetime(t *testing.T, p *Plan) *Result {
 					w.stat("terminated:" + how)
 					continue
 				}
+				if op.I["answerFromOtherPort"] == 1 && how == "BYE" {
+					noAnswer[op.ID] = true
+				}
 				d.sendRequest(ids.ua, pm.op.Listen, ids.request(o), op.ID)
 				w.K.Settle(10 * time.Second)
 				noteTraffic()
+				if noAnswer[op.ID] && len(d.reached[op.ID]) == 1 && d.reached[op.ID][0] == pm.backend {
+					var relayed *Emitted
+					for _, e := range w.decodeEmissions(0) {
+						if e.ID == op.ID && e.M != nil && e.E.Err == "" {
+							relayed = e
+						}
+					}
+					if relayed != nil {
+						if vias, err := relayed.M.Vias(); err == nil && len(vias) > 0 {
+							resp := buildResponse(relayed.M, respPlan{status: op.I["status"], expires: -1}, op.ID)
+							be := udpAddr(pm.backend)
+							w.N.InjectUDP(&net.UDPAddr{IP: be.IP, Port: 5099}, udpAddr(hostPort(vias[0].Host, vias[0].EffPort())), resp, 300*time.Microsecond)
+							w.K.Settle(10 * time.Second)
+							w.stat("probe:bye-answered-from-another-port")
+						}
+					}
+				}
 				if len(d.reached[op.ID]) != 1 || d.reached[op.ID][0] != pm.backend {
 					w.stat("skipped:terminating-request-not-at-pinned-backend")
 					pm.dontcare = true
